@@ -139,6 +139,26 @@ func (b *Builder) Code(n *Node) jen.Code {
 		c = b.dict(n)
 	case KStmt:
 		c = b.Stmt(n)
+	case KNest:
+		// Depth groups of the construct named by Calls[0].Fn nested in one another around a leaf
+		inner := jen.Id("leaf")
+		fn := "List"
+		if len(n.Calls) > 0 {
+			fn = n.Calls[0].Fn
+		}
+		switch f := Funcs[fn].(type) {
+		case func(...jen.Code) *jen.Statement:
+			for i := 0; i < n.Depth; i++ {
+				inner = f(inner)
+			}
+		case func(jen.Code) *jen.Statement:
+			for i := 0; i < n.Depth; i++ {
+				inner = f(inner)
+			}
+		default:
+			panic("recipe: nest: construct does not take Code items: " + fn)
+		}
+		c = inner
 	default:
 		panic("recipe: unknown node kind " + n.Kind)
 	}
@@ -416,6 +436,13 @@ func (b *Builder) AddToFile(f *jen.File, n *Node) {
 	f.Add(b.Code(n))
 }
 
+// CallerTable, when non-nil, is the one map object handed to every ImportNames call: emptied,
+// refilled with the call's entries and passed. It models a caller that keeps a single table and
+// reuses it from File to File (and from call to call); a File's names must not depend on what the
+// caller does with its own map afterwards, nor may jennifer write into it. Not safe for
+// concurrent builds: set it only around sequential building.
+var CallerTable map[string]string
+
 // ApplyFileOp performs one configuration call.
 func ApplyFileOp(f *jen.File, op *FileOp) {
 	a := func(i int) string {
@@ -431,6 +458,13 @@ func ApplyFileOp(f *jen.File, op *FileOp) {
 		f.ImportAlias(a(0), a(1))
 	case "ImportNames":
 		m := map[string]string{}
+		if CallerTable != nil {
+			// the caller keeps one table object and refills it for every call (see CallerTable)
+			m = CallerTable
+			for k := range m {
+				delete(m, k)
+			}
+		}
 		for k, v := range op.Map {
 			m[k] = v
 		}
